@@ -198,10 +198,10 @@ def parse(out):
 CASE_TYPE = "srv * list event * list outcome * (list (N * bool) * list (N * (option N * Z)) * N * list (N * (N * option N * N * N * N)) * N) * list (key * node)"
 
 AGREE = """  let '(s0, evs, outs, (sess, subs, lastsub, items, ctr), fnodes) := c in
-  match first_diff (outcomes FUEL s0 evs) outs 0 with
+  let '(s, os) := run_out FUEL s0 evs in
+  match first_diff os outs 0 with
   | Some _ => false
-  | None => let s := run FUEL s0 evs in
-            sessions_agree s sess && subs_agree s subs lastsub && items_agree s items ctr && nodes_agree (sv_space s) fnodes
+  | None => sessions_agree s sess && subs_agree s subs lastsub && items_agree s items ctr && nodes_agree (sv_space s) fnodes
   end"""
 
 
